@@ -14,8 +14,8 @@ CLAIMED = {
         text="Proof (Lean 4): sf_format_check is transcribed case by case and proved equivalent — for every format word whose container and encoding the build "
              "enumerates, every endianness word, ALL channel counts and ALL sample rates — to the model of sf_open(SFM_WRITE) written from psf_open_file and the 23 "
              "container open routines (gate, header writer, codec dispatch, writers installed), and to the whole experiment (4 typed writes, close, temp residue, re-open as the "
-             "same container and encoding). The full statements are refuted with concrete witnesses and proved outside four known-finding classes (rate 0; CAF/ALAC > 8 channels; "
-             "OKI/VOX odd counts; IRCAM rates >= 2^31-64). The enumeration lists are extracted by execution each run and proved duplicate-free, well-formed, all simple formats writable, "
+             "same container and encoding). The full statements are refuted with concrete witnesses and proved outside three known-finding classes (rate 0; OKI/VOX odd counts; "
+             "IRCAM rates >= 2^31-64; CAF/ALAC > 8 channels is repaired in /repo and kept as a regression witness). The enumeration lists are extracted by execution each run and proved duplicate-free, well-formed, all simple formats writable, "
              "every major with a usable subtype (kernel `decide`). Exhaustive correspondence on the complete 154 560-point grid and all enumeration indices ties the model to the code.",
         technique="Lean 4 theorems over a hand-written model + exhaustive correspondence on the complete grid (lists extracted by execution)",
         design_ref="DESIGN.md §7 C10"),
@@ -64,6 +64,34 @@ CLAIMED["C06"] = dict(
          "are required to refuse every seek. Partial: block-codec seek internals are opaque (checked by B).",
     technique="Lean 4 theorems over a hand-written handle model + differential correspondence + contract evaluation on implementation transcripts",
     design_ref="DESIGN.md §7 C06")
+
+_WR = ("tied to the code two ways: (A) byte-exact correspondence (transcripts and file bytes) of seeded write/close/re-open histories on every RAW/AU/WAV encoding against the "
+       "Lean handle+container model; (B) for every writable (major, subtype, endian) x channels x rates x lengths around block boundaries, the same samples written in one call and "
+       "split over mixed calls with header updates, crash-point snapshots and a different stale frames value, re-opened and compared on the implementation's own transcripts. ")
+CLAIMED["C01"] = dict(
+    text="Proof (Lean 4): sample_roundtrip / data_roundtrip (decode∘encode = id for every lossless (encoding, caller type) pair, every length, every conversion setting), "
+         "file_roundtrip (open, any list of write calls, close: the data region is encodeAll of the samples and decodes back) for RAW/AU/WAV; " + _WR +
+         "Partial: block codecs (ALAC, DWVW, DPCM, SDS, PAF24) are covered by (B) only.",
+    technique="Lean 4 theorems over a hand-written codec/handle model + differential correspondence + round-trip predicate on implementation transcripts",
+    design_ref="DESIGN.md §7 C01")
+CLAIMED["C04"] = dict(
+    text="Proof (Lean 4) about the container model (header writers/parsers of RAW, AU, WAV; geometry table of all containers): re-open info and frame-count bounds; " + _WR +
+         "The geometry (block length, pad allowance, rate quantiser per container) is written from the format definitions, not measured. Partial: header bytes of the other "
+         "containers are not modelled (covered by B).",
+    technique="Lean 4 theorems over a hand-written container model + differential correspondence + predicate on implementation transcripts",
+    design_ref="DESIGN.md §7 C04")
+CLAIMED["C07"] = dict(
+    text="Proof (Lean 4): kernel_append, write_partition_store (two calls = one call, every field and byte), file_bytes_fn / file_bytes_partition (closed bytes are a function of "
+         "open parameters, concatenated samples and PEAK state only; header updates and call variants do not matter) for RAW/AU/WAV, with the proved counter-example for "
+         "PEAK-carrying WAV float/double; " + _WR + "The clock is pinned by the harness. Partial: block encoders are covered by (B).",
+    technique="Lean 4 theorems over a hand-written handle model + differential correspondence + byte comparison of partitions on the implementation",
+    design_ref="DESIGN.md §7 C07")
+CLAIMED["C11"] = dict(
+    text="Proof (Lean 4) that the store after a header update parses to the frames written so far (AU/WAV model); " + _WR +
+         "Every snapshot (copy of the store right after SFC_UPDATE_HEADER_NOW or, in auto mode, after each write) is opened by a second handle and must report the same parameters, "
+         "the frames written so far (whole blocks) and the same prefix of samples. RAW (no header) and CAF/ALAC are outside the statement.",
+    technique="Lean 4 theorems over a hand-written container model + crash-point snapshots parsed by the implementation",
+    design_ref="DESIGN.md §7 C11")
 
 PENDING_REASON = "check under construction in this round (DESIGN.md §7 gives the plan); not claimed until its check passes on the clean tree"
 
